@@ -1348,10 +1348,25 @@ func (c *Ctx) readsOneSection() {
 			if n != "ReadAt" && n != "Read" {
 				return 0
 			}
-			if it, ok := cc.Value.Type().Underlying().(*types.Interface); ok {
-				for i := 0; i < it.NumMethods(); i++ {
-					if it.Method(i).Name() == "Truncate" {
-						return kFile
+			// the header file, also when it was handed on as a narrower
+			// interface (io.ReaderAt)
+			v := cc.Value
+			for d := 0; d < 4 && v != nil; d++ {
+				if it, ok := v.Type().Underlying().(*types.Interface); ok {
+					for i := 0; i < it.NumMethods(); i++ {
+						if it.Method(i).Name() == "Truncate" {
+							return kFile
+						}
+					}
+				}
+				switch x := v.(type) {
+				case *ssa.ChangeInterface:
+					v = x.X
+				default:
+					if w := ir.Strip(v); w != v {
+						v = w
+					} else {
+						v = nil
 					}
 				}
 			}
